@@ -6,11 +6,13 @@ import (
 	"context"
 	"encoding/json"
 	"fmt"
+	"math/rand/v2"
 	"os"
 	"sync"
 
 	"github.com/formancehq/numscript/internal/verifsim/core"
 	"github.com/formancehq/numscript/internal/verifsim/exec"
+	"github.com/formancehq/numscript/internal/verifsim/gen"
 	"github.com/formancehq/numscript/internal/verifsim/store"
 )
 
@@ -28,11 +30,6 @@ func runRace(c Case) (*core.Violation, int) {
 	p := exec.Parse(text)
 	if !p.InDomain {
 		return nil, 0
-	}
-	base := make([]exec.Outcome, len(c.Tasks))
-	for i, t := range c.Tasks {
-		t.Faults = nil
-		base[i] = c.solo(text, t, flagsMap(t))
 	}
 	mode := c.StoreMode
 	if mode != store.ModeSuperset {
@@ -72,6 +69,13 @@ func runRace(c Case) (*core.Violation, int) {
 	close(start)
 	wg.Wait()
 	runs := len(c.Tasks) * raceReps
+	// the solo baselines are computed after the parallel phase on purpose: anything the
+	// interpreter initialises lazily must meet the parallel runs cold
+	base := make([]exec.Outcome, len(c.Tasks))
+	for i, t := range c.Tasks {
+		t.Faults = nil
+		base[i] = c.solo(text, t, flagsMap(t))
+	}
 	for i := range c.Tasks {
 		for r, o := range outs[i] {
 			if o.Canon() != base[i].Canon() {
@@ -110,6 +114,10 @@ func raceWorker(o core.WorkerOpts) *core.Report {
 	l.Run(func(i int64, caseSeed uint64) {
 		r := core.NewRand(caseSeed)
 		c, _ := genCase(r)
+		if i%2 == 0 {
+			// portion / number / monetary variables in every task: parsing paths run in parallel from the first instant
+			c = withParsedVariables(r, c)
+		}
 		if len(c.Tasks) < 2 {
 			c.Tasks = append(c.Tasks, c.Tasks[0])
 			c.Tasks[1].StoreGroup, c.Tasks[1].VarsGroup, c.Tasks[1].FlagsGroup = 0, 0, 0
@@ -135,6 +143,26 @@ func raceWorker(o core.WorkerOpts) *core.Report {
 	}
 	l.Rep.SaveHashes(o.OutDir, "race_mode_cases", distinct)
 	return l.Rep
+}
+
+// withParsedVariables declares extra plain variables of the types whose
+// values go through a parser (portion, number, monetary) and uses them.
+func withParsedVariables(r *rand.Rand, c Case) Case {
+	c.Prog = c.Prog.Clone()
+	pv := fmt.Sprintf("%d/%d", 1+r.IntN(3), 4+r.IntN(4))
+	c.Prog.Vars = append(c.Prog.Vars, gen.VarDecl{Type: "portion", Name: "zz_rp"}, gen.VarDecl{Type: "number", Name: "zz_rn"}, gen.VarDecl{Type: "monetary", Name: "zz_rm"})
+	c.Prog.Stmts = append(c.Prog.Stmts, gen.Stmt{K: "send", Amt: gen.Var("zz_rm"),
+		Src: &gen.Src{K: "allot", Items: []gen.SrcItem{{A: gen.Allot{K: "var", S: "zz_rp"}, From: gen.Src{K: "acc", E: gen.Acc("world")}}, {A: gen.Allot{K: "rem"}, From: gen.Src{K: "acc", E: gen.Acc("world")}}}},
+		Dst: &gen.Dst{K: "acc", E: gen.Acc("a")}})
+	rn, rm := fmt.Sprint(r.IntN(1000)), fmt.Sprintf("USD %d", 1+r.IntN(1000))
+	for i := range c.Tasks {
+		// same values for every task: tasks may share one map instance
+		c.Tasks[i].Vars = copyVars(c.Tasks[i].Vars)
+		c.Tasks[i].Vars["zz_rp"] = pv
+		c.Tasks[i].Vars["zz_rn"] = rn
+		c.Tasks[i].Vars["zz_rm"] = rm
+	}
+	return c
 }
 
 func raceReplay(c Case) (*core.Violation, *core.Trace, error) {
